@@ -162,6 +162,27 @@ def generate(g, tier):
             for _k in range(len(vals)):
                 exp.append('STRING ' + ev(env)); env[k0] += 7
         cases.append(dict(op='compile', src=dict(text='\n'.join(lines)), meta=dict(family='reeval', form='outs', expout=exp)))
+    # ... and "current" means current at the moment THAT argument is evaluated: a VAR (or $STRING, DELAY ...) written with a group of
+    # arguments defines / reads line by line — a later line of the group sees what an earlier line of the same group just defined
+    for _ in range(count(tier, 60, 500)):
+        n = r.randint(2, 5)
+        names_ = r.sample(['a', 'b', 'c', 'acc', 'n', 'total', 'x1'], n)
+        env, lines, exp = {}, [], []
+        if g.chance(0.6):
+            env[names_[0]] = r.randint(0, 9); lines.append(f'VAR {names_[0]} {env[names_[0]]}')
+        lines.append(r.choice(['VAR', 'var', 'Var']))
+        for k, nm in enumerate(names_):
+            prev = r.choice([x for x in names_[:k + 1] if x in env] or [None])
+            c_ = r.randint(1, 9)
+            if prev is None: env[nm] = c_; lines.append(f'    {nm} {c_}')
+            else:
+                op = r.choice(['+', '*', '-'])
+                env[nm] = {'+': env[prev] + c_, '*': env[prev] * c_, '-': env[prev] - c_}[op]
+                lines.append(f'    {nm} {prev}{op}{c_}')
+        lines.append('$STRING')
+        for nm in names_:
+            lines.append(f'    {nm}'); exp.append(f'STRING {env[nm]}')
+        cases.append(dict(op='compile', src=dict(text='\n'.join(lines)), meta=dict(family='grouped-definitions', form='outs', expout=exp)))
     # ... and their current TYPE: the same text after the variable went from 1 to TRUE, 0 to FALSE, to a decimal, to a string
     TYPED = [('1', '1'), ('TRUE', 'True'), ('0', '0'), ('FALSE', 'False'), ('2.5', '2.5'), ('"s"', 's'), ('2', '2'), ('""', ''), ('1.0', '1')]
     for _ in range(count(tier, 60, 600)):
